@@ -231,7 +231,21 @@ func (c *Canonicalizer) reconstructBlockInstructions(fn *ssa.Function) {
 	tails := make(map[*ssa.BasicBlock][]ssa.Instruction)
 	terminators := make(map[*ssa.BasicBlock]ssa.Instruction)
 
-	for _, b := range fn.Blocks {
+	// Walk the blocks in canonical (renumbered) order: instructions moved into another block
+	// are appended in walk order, which must not depend on the source order of branches.
+	canonOrder := make([]*ssa.BasicBlock, len(fn.Blocks))
+	copy(canonOrder, fn.Blocks)
+	blockNum := func(b *ssa.BasicBlock) int {
+		if id, ok := c.blockMap[b]; ok && len(id) > 1 {
+			if n, err := strconv.Atoi(id[1:]); err == nil {
+				return n
+			}
+		}
+		return len(fn.Blocks) + b.Index
+	}
+	sort.SliceStable(canonOrder, func(i, j int) bool { return blockNum(canonOrder[i]) < blockNum(canonOrder[j]) })
+
+	for _, b := range canonOrder {
 		for _, instr := range b.Instrs {
 			if c.VirtualizedInstrs[instr] {
 				continue
